@@ -414,6 +414,26 @@ def directed_sets():
                 body = [("S", k, v, ["1"], body)]
             out.append({"templates": {"main": {"globals": {"mg": "MG"}, "body": body}, "t1": glob_t},
                         "main": "main", "data": data, "env_globals": {"g": "G"}, "objects": []})
+    # `ignore missing` covers the lookup only: the target exists, what fails is a lookup INSIDE it
+    for inner in ([("i", [("n", "nope")], False, None, False)], [("I", ("n", "nope"), "m1", None)],
+                  [("i", [("n", "nope"), ("n", "nope2")], True, False, False)], [("F", ("n", "nope"), [("a", "q1")], None)]):
+        for wc in (None, False, True):
+            for scope in ("top", "m", "f"):
+                inc = [("o", "["), ("i", [("n", "t1")], False, wc, True), ("o", "]")]
+                body = inc if scope == "top" else [("S", scope, "k" if scope == "m" else "i", ["1"], inc)]
+                out.append({"templates": {"main": {"globals": {}, "body": body},
+                                          "t1": {"globals": {}, "body": [("o", "t")] + inner}},
+                            "main": "main", "data": {}, "env_globals": {"g": "G"}, "objects": []})
+    # locals handed to a target must not stay in the including context after their scope has ended (the includer
+    # has no top-level assignment, so get_all() is its live parent dict)
+    seen_t = {"globals": {}, "body": [("o", "("), ("p", "i"), ("p", "w"), ("p", "k"), ("o", ")")]}
+    for hand in ([("i", [("n", "t1")], False, None, False)], [("I", ("n", "t1"), "m1", True)],
+                 [("F", ("n", "t1"), [("a", "q1")], True)], [("S", "B", "k", ["1"], [("p", "i")])]):
+        for scope, v, vals in (("f", "i", ["1", "2"]), ("w", "w", ["1"]), ("m", "k", ["1"])):
+            body = [("S", scope, v, vals, hand), ("o", "|"), ("i", [("n", "t1")], False, None, False),
+                    ("S", "B", "k", ["1"], [("p", "i"), ("p", "w"), ("p", "k")]), ("p", "i"), ("p", "w")]
+            out.append({"templates": {"main": {"globals": {}, "body": body}, "t1": seen_t},
+                        "main": "main", "data": {"x": "DX"}, "env_globals": {"g": "G"}, "objects": []})
     # include lists / partially cached candidates: t2 is loaded first (by an include or an import), then a
     # list [t1, t2] / [nope, t1, t2] must still select t1
     for first in ([("i", [("n", "t2")], False, None, False)], [("I", ("n", "t2"), "m2", None)],
